@@ -9,7 +9,7 @@ PROP = "C02"
 
 
 def body():
-    A.aggsender_check(PROP, model_cfgs=["AggSenderC02.cfg", "AggSenderC02b.cfg", "AggSenderC02cut.cfg", "AggSenderFEP.cfg"], gen_cfgs=["AggSenderGenC02.cfg", "AggSenderGenC02b.cfg", "AggSenderGenC02cut.cfg", "AggSenderGenFEP.cfg"], quick_n=250, thorough_n=4000, l2reorgs=True, invs=["HeightOK", "PrevOK", "FromOK", "NewOK", "NoOverlap", "SettledChain"])
+    A.aggsender_check(PROP, model_cfgs=["AggSenderC02.cfg", "AggSenderC02b.cfg", "AggSenderC02cut.cfg", "AggSenderFEP.cfg"], gen_cfgs=["AggSenderGenC02.cfg", "AggSenderGenC02b.cfg", "AggSenderGenC02cut.cfg", "AggSenderGenFEP.cfg"], quick_n=250, thorough_n=4000, l2reorgs=True, l1random=True, invs=["HeightOK", "PrevOK", "FromOK", "NewOK", "NoOverlap", "SettledChain"])
 
 
 if __name__ == "__main__":
